@@ -133,6 +133,35 @@ check("C19", "exploration",
       "One open finding (explain/impact skip the request-time phase when the example carries a status code) is listed in known_findings.json.",
       "DESIGN.md 4 (C19)", "E4 product enumerator")
 
+
+# ---- session 3: what was added to each check (appended to the claim text; DESIGN.md 8.5 has the details) ----
+ADDITIONS = {
+ "C01": "Added in session 3: marker paths sharing a plain upper-case prefix (/A/x-@m, /A/y-@m); host-focus universe with a second rule on the longer host pattern and the same dynamic host in another casing (10 rules).",
+ "C02": "Added in session 3: r12 (a header condition shared with r5 inside ONE header matcher) and r13 (host \"\" = any host); 15 variants / 13 ids.",
+ "C03": "Added in session 3: the six context-loss signatures are fixed in /repo (856299d) and suppress nothing any more; a curated body with end tags that close nothing inside a buffered target.",
+ "C05": "Added in session 3: controls are the full product reset x stop x sampling{none,0,100} (12), a payload overriding one header shared by all rules, unit ids on every rule and filter; every case is also built and observed with a UnitTrace handed to every call (same action JSON, same effects, trace rule ids == applied ids).",
+ "C06": "Added in session 3: requests at instants 400 us / 1 ns before and 999.6 ms / 1 s - 1 ns after every probe instant (the probe space puts its instants ON the window boundaries); rules whose target / header / body values have blank edges, are empty or contain control characters.",
+ "C07": "Added in session 3: marker expressions with named / unnamed groups of their own that accept the baseline values.",
+ "C08": "Added in session 3: twin-tree interleavings - two trees differing only in ignore_case hold the same pattern and run the script insert, find, cache, find; all 70 interleavings x 27 patterns x {multi, unique}, each on a thread of its own; every find must equal the linear scan of its own tree (detects per-thread / process-wide memoisation keyed without the case mode).",
+ "C09": "Added in session 3: a non-ASCII parameter name and a parameter sorting after the marketing keys.",
+ "C10": "Added in session 3: transformers that cannot be built (unknown type, replace / slice without options) inside chains and in a variable's chain; references directly followed by a name character (@a_s, @y9, @xs).",
+ "C12": "Added in session 3: heavy-pattern pass (never-warmed vs warmed tree / router on expressions whose compiled program is large) and twin-router interleavings (two routers differing only in ignore_path_and_query_case, same marker rules, all 70 interleavings of insert / match / cache / match, each on its own thread, every answer compared with the router's own configuration).",
+ "C13": "Added in session 3: second universe with prefix-related names (X, X-Y, x-y-z), filters with and without unit id / production target hash; Action::filter_headers also with a UnitTrace.",
+ "C14": "Added in session 3: hand-built zlib streams declaring windows of 2^9 / 2^12 / 2^14 bytes, a gzip member with FEXTRA / FNAME / FCOMMENT; filter lists replace_text and a buffering two-stage HTML list.",
+ "C15": "Added in session 3: 2-4 sibling occurrences of the target for ALL three edits (found a genuine defect, fixed in /repo 586fa08); non-void self-closing fillers, raw-text fillers with white space in the end tag, the legacy script guard; two unparsable selectors.",
+ "C16": "Added in session 3: run-length sweep - 23 constructs x 18 fillers x every run length 1..80 (quick) / 1..300 (thorough), in the document and in a raw-text context.",
+ "C17": "Added in session 3: every probe is also traced as a request built with the DEFAULT configuration (the trace normalises it itself); marker paths sharing a plain upper-case prefix.",
+ "C18": "Added in session 3: header lists with undecodable entries (NULL name, NULL value, ISO-8859-1 bytes) between valid ones; a body filter that failed on an earlier chunk (declared gzip, body not gzip); allocation-free termination watchdog.",
+ "C19": "Added in session 3: ignore_path_and_query_case with a lone upper-case pattern rule; independent verdict on every example of the final rule list (must-match example fails iff the live pipeline does not apply its rule, must-not-match example fails iff it does; example_count).",
+}
+COMMON = " Every unit of work runs under a termination watchdog (a call that does not return within 30 s is the violation does-not-terminate with a replay file) and with panics of the library caught (violation panic:<file:line>). A violation that fails inside the exploration but not when its case is executed alone is confirmed by a second complete exploration and reported as history-dependent (hidden shared state in the library)."
+for pid, c in CHECKS.items():
+    if pid in ADDITIONS:
+        c["level_claimed"]["text"] += " " + ADDITIONS[pid]
+    if pid not in ("C07", "C16"):
+        c["level_claimed"]["text"] += COMMON
+CHECKS["C03"]["level_note"] = "Bodies outside the corpus are not covered; compressed chains are C14; bodies that are not valid UTF-8 are C04's subject (a one-chunk run fails as a whole and passes through, a chunked run has already filtered the earlier chunks: invariance cannot hold there by design of the error fallback). The lexical-context findings of the pinned tree are fixed in /repo (856299d)."
+
 ALL = [f"C{n:02d}" for n in range(1, 20)]
 
 NOT_BUILT_REASON = "check not built yet in this round (planned, see DESIGN.md section 0); not claimed until its explorer exists and has been shown to detect a seeded change"
